@@ -305,6 +305,74 @@ def LEMMAS():
            ("closure: after the edge step n -> m the matrix contains the edge and everything that reached n reaches m; nothing is lost",
             [step],
             z3.And(P1(n, m), z3.ForAll([a], z3.Implies(P0(a, n), P1(a, m))), z3.ForAll([a, b], z3.Implies(P0(a, b), P1(a, b)))))]
+    return out + kahn_invariant_lemmas()
+
+
+def kahn_invariant_lemmas():
+    """Progress of Kahn's algorithm as an induction over the step contracts (the steps themselves are the units above; the final
+    graph-theoretic argument -- a non-empty set of nodes each with a direct ancestor inside it contains a cycle -- is
+    lemmas/Progress.lean).  Ghost state of the outer loop: em(v) `v is in sorted_nodes`, pos(v) its position, cnt = len(sorted_nodes),
+    inQ(v) `v is in the queue`, R(m, a) `a is in direct_ancestors_[m]`.  E(a, m): a is a direct ancestor of m."""
+    V = z3.DeclareSort("Vk")
+    B, I = z3.BoolSort(), z3.IntSort()
+    E = z3.Function("E", V, V, B)
+    n = z3.Const("n_dequeued", V)
+    a, b, m, x, y, v = z3.Consts("a_k b_k m_k x_k y_k v_k", V)
+    j, k = z3.Ints("j_k k_k")
+    # the child list of n: exactly the m with E(n, m), without repeats (graph_axioms / the construction of the children map)
+    CLn = z3.Int("n_children_of_n")
+    CHn = z3.Function("child_of_n", I, V)
+    J = z3.Function("position_in_children_of_n", V, I)
+    children = [CLn >= 0,
+                z3.ForAll([j], z3.Implies(z3.And(0 <= j, j < CLn), z3.And(E(n, CHn(j)), J(CHn(j)) == j))),
+                z3.ForAll([x], z3.If(E(n, x), z3.And(0 <= J(x), J(x) < CLn, CHn(J(x)) == x), J(x) == -1)),
+                z3.ForAll([x], z3.Not(E(x, x)))]
+    # ---- inner loop: composition of the EdgeStep transitions over the children of n
+    Rk = z3.Function("R_after", I, V, V, B)         # remaining ancestors after k iterations of the inner loop
+    Enq = z3.Function("enqueued_within", I, V, B)   # put in the queue during the first k iterations
+
+    def inv_edge(kk):
+        done = z3.And(0 <= J(x), J(x) < kk)
+        return z3.And(z3.ForAll([x, y], Rk(kk, x, y) == z3.If(done, z3.And(Rk(0, x, y), y != n), Rk(0, x, y))),
+                      z3.ForAll([x], Enq(kk, x) == z3.And(done, z3.ForAll([y], z3.Not(z3.And(Rk(0, x, y), y != n))))))
+    mk = CHn(k)
+    edge_step = z3.And(          # EdgeStep's contract for iteration k (edge n -> CHn(k)): clauses 2 and 4 of edge_post
+        z3.ForAll([x, y], Rk(k + 1, x, y) == z3.If(x == mk, z3.And(Rk(k, mk, y), y != n), Rk(k, x, y))),
+        z3.ForAll([x], Enq(k + 1, x) == z3.Or(Enq(k, x), z3.And(x == mk, z3.ForAll([y], z3.Not(Rk(k + 1, mk, y)))))))
+    out = [("kahn: the inner loop's effect after k iterations (children 0..k-1 lost n, those left without ancestor were enqueued) holds initially",
+            children + [z3.ForAll([x], z3.Not(Enq(0, x)))], inv_edge(z3.IntVal(0))),
+           ("kahn: ... and is preserved by one EdgeStep transition",
+            children + [0 <= k, k < CLn, inv_edge(k), edge_step], inv_edge(k + 1))]
+    # ---- outer loop: one NodeStep (dequeue the front n, append it, run the inner loop to its end)
+    em, inQ, pos, R = z3.Function("em", V, B), z3.Function("inQ", V, B), z3.Function("pos", V, I), z3.Function("R", V, V, B)
+    em2, inQ2, pos2, R2 = z3.Function("em'", V, B), z3.Function("inQ'", V, B), z3.Function("pos'", V, I), z3.Function("R'", V, V, B)
+    cnt, cnt2 = z3.Ints("cnt cnt'")
+
+    def INV(em_, inQ_, pos_, R_, cnt_):
+        return z3.And(
+            z3.ForAll([m, a], R_(m, a) == z3.And(E(a, m), z3.Not(em_(a)))),
+            z3.ForAll([m], z3.Implies(inQ_(m), z3.And(z3.Not(em_(m)), z3.ForAll([a], z3.Not(R_(m, a)))))),
+            z3.ForAll([m], z3.Implies(z3.And(z3.Not(em_(m)), z3.Not(inQ_(m))), z3.Exists([a], R_(m, a)))),
+            z3.ForAll([a, b], z3.Implies(z3.And(em_(b), E(a, b)), z3.And(em_(a), pos_(a) < pos_(b)))),
+            z3.ForAll([v], z3.Implies(em_(v), z3.And(0 <= pos_(v), pos_(v) < cnt_))), cnt_ >= 0)
+    node_step = [inQ(n),                                                             # NodeStep: the node taken is (at the front of) the queue
+                 z3.ForAll([v], em2(v) == z3.Or(em(v), v == n)), cnt2 == cnt + 1,      # ... appended to the order
+                 z3.ForAll([v], pos2(v) == z3.If(v == n, cnt, pos(v))),
+                 z3.ForAll([x, y], Rk(0, x, y) == R(x, y)), z3.ForAll([x], z3.Not(Enq(0, x))),
+                 inv_edge(CLn),                                                      # the inner loop ran over all children (lemmas above)
+                 z3.ForAll([x, y], R2(x, y) == Rk(CLn, x, y)),
+                 z3.ForAll([v], inQ2(v) == z3.Or(z3.And(inQ(v), v != n), Enq(CLn, v)))]
+    out.append(("kahn: the loop invariant (remaining ancestors = non-emitted direct ancestors; queued = non-emitted without remaining ancestor; "
+                "waiting nodes have one; emitted nodes come after their emitted direct ancestors) is preserved by one NodeStep",
+                children + [INV(em, inQ, pos, R, cnt)] + node_step, INV(em2, inQ2, pos2, R2, cnt2)))
+    out.append(("kahn: the invariant holds when the main loop is reached (InitRoots: exactly the nodes without direct ancestor are queued)",
+                [z3.ForAll([v], z3.Not(em(v))), cnt == 0, z3.ForAll([m, a], R(m, a) == E(a, m)),
+                 z3.ForAll([m], inQ(m) == z3.ForAll([a], z3.Not(R(m, a))))], INV(em, inQ, pos, R, cnt)))
+    out.append(("kahn: when the queue runs empty every non-emitted node has a non-emitted direct ancestor, and every emitted node comes after its "
+                "(emitted) direct ancestors -- the hypotheses of lemmas/Progress.lean (refused_iff_cyclic)",
+                [INV(em, inQ, pos, R, cnt), z3.ForAll([v], z3.Not(inQ(v)))],
+                z3.And(z3.ForAll([m], z3.Implies(z3.Not(em(m)), z3.Exists([a], z3.And(z3.Not(em(a)), E(a, m))))),
+                       z3.ForAll([a, b], z3.Implies(z3.And(em(b), E(a, b)), z3.And(em(a), pos(a) < pos(b)))))))
     return out
 
 
@@ -314,7 +382,9 @@ ASSUMPTIONS = ["C15: queue.SimpleQueue as a FIFO sequence (put appends, get remo
                "frozenset.difference by its set-algebra meaning; a boolean tensor column update `P[:, j] |= P[:, i]` entry-wise",
                "C15: class invariants of the loop state taken as preconditions of a step: ix_nodes numbers the nodes injectively in [0, n), every "
                "child list holds distinct nodes different from their parent (established by the validation before the loop; stand-in)"]
-NOT_DECIDED = ["progress of Kahn's algorithm (every edge processed, every node emitted iff the graph is acyclic), the construction of the children "
-               "map and the re-ordering of the matrix: bounded stand-in (all labelled digraphs up to 4 / 5 nodes) only"]
-LEAN_FILES = ["lemmas/Closure.lean"]
+NOT_DECIDED = ["the construction of the children map (taken as the inverse of the ancestors map, each child listed once: a hypothesis of the progress "
+               "lemmas), the validation before the loop, the re-ordering of the matrix and compute_sorted_children_and_ancestors: bounded stand-in "
+               "(all labelled digraphs up to 4 / 5 nodes) only",
+               "termination of the loops themselves (each NodeStep emits a new node; the loop variant is not discharged)"]
+LEAN_FILES = ["lemmas/Closure.lean", "lemmas/Progress.lean"]
 LEVEL = "exploration"
